@@ -467,7 +467,7 @@ Value * Context::dropReturned()
 void Context::onRuntimeError()
 {
   /* purge control stack */
-  while (!_controlstack.empty() && _controlstack.top().stmt->level() >= execLevel())
+  while (!_controlstack.empty() && _controlstack.top().level >= execLevel())
     unstackControl();
   /* purge temporary allocations */
   purgeWorkingMemory();
